@@ -14,7 +14,8 @@ Open Scope N_scope.
 
 (* ---------------------------------------------------------------- (1) *)
 (* receive e fuel c s = parse c s ;; payload_view ;; switch PayloadID { ARP, ICMP4, ICMP6, DHCP4,
-   DNS, MDNS/LLMNR, NBNS, SSDP, 802.3, LLDP -> its processor; otherwise nothing }.
+   DNS, MDNS/LLMNR, NBNS, SSDP, 802.3, LLDP -> its processor; otherwise nothing }; the ICMPv6
+   processor also receives frame.IP6() (PARSE's frame_ip6: nil when offsetIP6 = 0).
    [e] carries every state the processors branch on (hunt lists, offers, lease decision, log
    levels, DNS table) and the third-party parsers' verdicts as arbitrary functions of the payload
    (what dnsmessage.Parser / net/http report); [c] is the session configuration of PARSE. *)
@@ -30,6 +31,14 @@ Example C08_dispatch_nonvacuous :
   receive ex_env 100 cfg0 (of_bytes ex_arp28) = Ok tt.
 Proof. exact dispatch_nonvacuous. Qed.
 Print Assumptions C08_dispatch_nonvacuous.
+
+(* ICMPv6 carried by IPv4 (protocol 58): classified PayloadICMP6 with offsetIP6 = 0, handed to the
+   ICMPv6 processor with a nil IPv6 view, which returns an error (before d9f9e28: panic) *)
+Example C08_dispatch_icmp6_in_ip4 :
+  (exists f, parse cfg0 (of_bytes ex_icmp6_in_ip4) = Ok f /\ f_id f = PayloadICMP6 /\ f_off6 f = 0%nat) /\
+  receive ex_env 100 cfg0 (of_bytes ex_icmp6_in_ip4) = Err EFrameLen.
+Proof. exact dispatch_icmp6_in_ip4. Qed.
+Print Assumptions C08_dispatch_icmp6_in_ip4.
 
 (* ---------------------------------------------------------------- (2) VIEWS *)
 Theorem C08_glue_ip4_is_valid : forall p, wf p -> HandlersProc.ip4_is_valid p = IP4_IsValid p.
